@@ -49,6 +49,7 @@ func parseWaitReasons(b []byte) map[int64]string {
 	out := map[int64]string{}
 	var cur int64 = -1
 	needFrame := false
+	sawSync := false
 	for len(b) > 0 {
 		nl := bytes.IndexByte(b, '\n')
 		var line []byte
@@ -62,13 +63,22 @@ func parseWaitReasons(b []byte) map[int64]string {
 			// who is waiting. A wait inside the simulator's own code (its mutex, its
 			// channels) is not a block on a library lock.
 			if needFrame && len(line) > 0 && line[0] != '\t' && line[0] != ' ' {
-				if bytes.HasPrefix(line, []byte("runtime.")) || bytes.HasPrefix(line, []byte("sync.")) ||
+				if bytes.HasPrefix(line, []byte("sync.")) {
+					sawSync = true
+					continue
+				}
+				if bytes.HasPrefix(line, []byte("runtime.")) ||
 					bytes.HasPrefix(line, []byte("internal/")) || bytes.HasPrefix(line, []byte("sync/atomic.")) {
 					continue
 				}
 				needFrame = false
 				if bytes.HasPrefix(line, []byte("verif/harness/sim.")) {
 					out[cur] = "harness-internal"
+				} else if !sawSync && isSemaphoreReason(out[cur]) {
+					// a semaphore wait that was not entered through package sync is the runtime's own business: a goroutine
+					// that is about to start or finish a GC cycle waits on the runtime's semaphores (and waits all the longer
+					// because this very probe stops the world). It is not blocked on a lock of the code under test.
+					out[cur] = "runtime-internal"
 				}
 			}
 			continue
@@ -94,8 +104,17 @@ func parseWaitReasons(b []byte) map[int64]string {
 		out[id] = string(reason)
 		cur = id
 		needFrame = true
+		sawSync = false
 	}
 	return out
+}
+
+func isSemaphoreReason(s string) bool {
+	switch s {
+	case "semacquire", "sync.Mutex.Lock", "sync.RWMutex.Lock", "sync.RWMutex.RLock", "sync.Cond.Wait", "sync.WaitGroup.Wait":
+		return true
+	}
+	return false
 }
 
 // isBlockingReason reports whether a goroutine with this wait reason is durably
